@@ -319,7 +319,7 @@ func (m *VMModel) classifyPrims() {
 					}
 					if m.isField(info, s.X, "constants") {
 						readConstants++
-						if c, ok := Unparen(s.Index).(*ast.CallExpr); ok {
+						if c, ok := m.Defs.Resolve(s.Index).(*ast.CallExpr); ok {
 							if f := CalleeOf(info, c); f != nil && m.Prims[f] == "arg" {
 								callsArg = true
 							}
